@@ -359,6 +359,12 @@ class CFG:
                 continue
             t = blk["term"]
             self.succ[i] = [x for x in t.get("targets", []) if x not in self.cleanup]
+        # `unreachable` blocks (the impossible third target of a switch on an Option/bool discriminant) are not exits:
+        # an edge into them would make every block after a `for` loop control dependent on the loop header
+        dead = {blk["id"] for blk in blocks if blk["term"]["k"] == "unreachable" and not blk["stmts"]}
+        for i in self.succ:
+            if dead and any(x in dead for x in self.succ[i]):
+                self.succ[i] = [x for x in self.succ[i] if x not in dead]
         self.pred = defaultdict(list)
         for a, ss in self.succ.items():
             for s in ss:
